@@ -70,12 +70,28 @@ names never changes by a step on another object (in particular: the owner of a s
 other object), what it shows through mixed names only changes when it or an object it imported from is re-configured; after every share (owner
 and importer), now and then in between and at the end every object shows what it shows in a new universe that executed only the definitional
 lines of the object and of those it imported from - for an exporting object a universe without any other cstruct object.
+
+Every public table of a cstruct object (harness/v9_c14.py): 2-4 cstruct objects made through every constructor spelling (endian positional / keyword,
+all five byte-order codes, pointer types, `cstruct(...).load(T)` chained), some loaded, some left untouched.  One object at a time acts: it loads a
+text of 1-4 top-level constructs - every construct the parsers accept: #define (int / hex / string / expression), typedef (scalar, multi-word, array,
+pointer, structure with tag and several names, anonymous), struct / union, enum / flag / anonymous enum, the lookup syntax `$name = {'CONST': value}`,
+the config flag `#[nocompile]`; all objects use the same names (K0.., word_t, E, S, U, lk, tab ...) with values of their own - through load() (keywords,
+deftype by name / number / position), the legacy parser (DEF_LEGACY), loadfile() of a real file (str and pathlib.Path, both parsers); or it uses the
+API (add_type / addtype by reference, by type object, replace=True of own and built-in names, add_custom_type), writes cs.consts / cs.lookups /
+cs.typedefs directly, sets cs.endian / cs.pointer, or performs a load that fails (duplicate type, unknown type, syntax error, lookup over an unknown
+constant, missing file).  Observed per object: cs.endian, cs.pointer, cs.consts, cs.lookups, cs.typedefs (names, targets, type name / size /
+alignment / owner, identity of every value) and a parse signature (layout, len, parses with stream position and dumps, default construction, the
+entry points T(bytes) / T.read(stream) / T.reads / cs.read(name, bytearray) / T(memoryview)) of its own types and three built-in scalars.  After every
+step: (1) every other object of the session shows exactly what it showed before; (2) a NEW object made by one of the session's constructor
+expressions shows what the same expression gave at the start of the session, also after loading the session's probe definition (same names as the
+objects use, lookup included) through the session's entry point; at the end (3) every object shows what it shows in a universe that executed only
+its own lines, and (4) a new cstruct() after all sessions equals the one before the first.
 """
 from __future__ import annotations
 
 import io
 
-from .. import defs, impl, s6_c14, t4_c14, u3_c14, v4_c14, v5_c14, v6_c14, v8_c14
+from .. import defs, impl, s6_c14, t4_c14, u3_c14, v4_c14, v5_c14, v6_c14, v8_c14, v9_c14
 from ..common import Case, Result, mkrng
 from ..structprops import rand_bytes
 
@@ -120,6 +136,13 @@ def run(env) -> Result:
                 "construction, T[2]) must show what they showed before unless that object itself was re-configured, its mixed names unless it or an "
                 "object it imported from was re-configured; after every share and at the end every object is compared with a new universe that "
                 "executed only the definitional lines of the object and of those it imported from. "
+                "Public tables (v9_c14): 2-4 cstruct objects made through every constructor spelling; one object at a time loads a text of 1-4 top-level "
+                "constructs (#define, typedef, struct / union, enum / flag / anonymous enum, lookup `$name = {'CONST': v}`, config flag; same names in all "
+                "objects) through load() / the legacy parser / loadfile(str | Path) / cstruct(...).load(), uses add_type / addtype / add_custom_type, writes "
+                "consts / lookups / typedefs, sets endian / pointer, or performs a failing load; after every step every other object shows the endian, "
+                "pointer, consts, lookups, typedefs (names, targets, identities) and parse signature it showed before, a new object made after the step "
+                "shows (also after the session's probe load) what one made at the start of the session showed, and at the end every object equals itself "
+                "in a universe that executed only its own lines. "
                 "distinct = (history prefix); non-trivial = history of >= 3 operations")
     dc = impl.dc()
     rnd = mkrng(env["seed"], "c14")
@@ -272,6 +295,11 @@ def run(env) -> Result:
         v8_c14.run(env, res, viol, mkrng(env["seed"], "c14:v8"), 20)
     else:
         v8_c14.run(env, res, viol, mkrng(env["seed"], "c14:v8"), 400, steps=(8, 24))
+    # every public table (endian, pointer, consts, lookups, typedefs) of bystander objects and of new objects, every way a definition is loaded
+    if tier == "quick":
+        v9_c14.run(env, res, viol, mkrng(env["seed"], "c14:v9"), 28)
+    else:
+        v9_c14.run(env, res, viol, mkrng(env["seed"], "c14:v9"), 500, steps=(6, 16))
     res.sample({"history_example": "construct@cs0, inplace-array@cs0/inst0, construct@cs0, endian@cs1, parse@cs1, ..."})
     return res
 
@@ -290,5 +318,8 @@ def replay(body) -> int:
     if str(case.get("family", "")).startswith("v8:"):
         print("replay:", body.get("what"))
         return v8_c14.replay(case)
+    if str(case.get("family", "")).startswith("v9:"):
+        print("replay:", body.get("what"))
+        return v9_c14.replay(case)
     print("replay:", body.get("what"), body.get("case"))
     return 0
